@@ -137,7 +137,7 @@ class PortPart:
     name = "port"
     kinds = ["port", "redport", "portmon", "port2", "redport2"]
     serves = ["C09", "C08"]
-    props_files = {"C09": ["Props/C09.v", "Props/C09_Bridge.v", "Props/C09_BridgeRed.v", "Props/C09_BridgeMon.v"], "C08": ["Props/C08_Port.v"]}
+    props_files = {"C09": ["Props/C09.v", "Props/C09_Bridge.v", "Props/C09_BridgeRed.v", "Props/C09_BridgeMon.v", "Props/C09_Examples.v"], "C08": ["Props/C08_Port.v"]}
     coq_imports = ["From ONL Require Import Base.Cmp Elem.Packet Elem.StoreQ Elem.Port Elem.Red."]
     weight = 1
     nontrivial_rule = {
